@@ -260,6 +260,9 @@ pub fn run(args: &Args) {
     if replay_case.is_none() || replay_case.as_ref().map(|c| c["kind"] == "lattice-panic").unwrap_or(false) {
         lattice_panic_sessions(&mut sink, &mut rng, args, replay_case.as_ref());
     }
+    if replay_case.is_none() {
+        damaged_dictionary_probe(&mut sink, &mut rng, args);
+    }
     debug_mode_runs(&mut sink, args);
     sink.finish();
 }
@@ -797,4 +800,79 @@ fn lattice_panic_sessions(sink: &mut Sink, rng: &mut Rng, args: &Args, replay: O
             sink.fail(id, &format!("the Lattice API panicked ({}) on well-formed nodes: {}", msg, desc(s)), "");
         }
     }
+}
+
+// ------------------------------------------------------------------ damaged dictionary bytes through the public loader
+// "any configuration that LOADED successfully": a binary dictionary with damaged bytes either is rejected by the loader or,
+// once loaded, must not make analysis panic.  Debug profile only: without debug assertions an out-of-range trie /
+// word-id-table / connection-matrix read is undefined behaviour (get_unchecked), which must not be executed.
+fn damaged_dictionary_probe(sink: &mut Sink, rng: &mut Rng, args: &Args) {
+    if !cfg!(debug_assertions) {
+        return;
+    }
+    let res = format!("{}/sudachi/tests/resources", repo());
+    let system = std::fs::read(format!("{}/system.dic.test", res)).unwrap();
+    let dir = args.work.join("resdmg");
+    let _ = std::fs::remove_dir_all(&dir);
+    prepare_resources(&dir, &res).unwrap();
+    let (_, cfg) = configs().into_iter().next().unwrap();
+    let texts = ["東京都に行った", "京都", "abc123", "高輪ゲートウェイ駅", "特a"];
+    let n = (system.len() - 272) / 4 + args.n(300, 5000);
+    let (mut rejected, mut ok, mut panicked) = (0u64, 0u64, 0u64);
+    for k in 0..n {
+        let mut bytes = system.clone();
+        let sys_units = (system.len() - 272) / 4;
+        let directed = k < sys_units;
+        if directed {
+            // systematic: every aligned 32-bit unit behind the header, one at a time, replaced by 0xFFFFFFFF
+            let pos = 272 + 4 * k;
+            bytes[pos..pos + 4].copy_from_slice(&0xFFFF_FFFFu32.to_le_bytes());
+        }
+        // damage: a few bytes anywhere behind the header description (the trie is the first thing of the lexicon section),
+        // single bits, or a 32-bit unit replaced by an extreme value
+        let lo = 272usize;
+        let nd = if directed { 0 } else { 1 + rng.below(3) as usize };
+        let mut what = if directed { vec![272 + 4 * k] } else { vec![] };
+        for _ in 0..nd {
+            let pos = lo + rng.below((bytes.len() - lo - 4) as u64) as usize;
+            match rng.below(3) {
+                0 => { bytes[pos] ^= 1 << rng.below(8); }
+                1 => { bytes[pos] = rng.below(256) as u8; }
+                _ => { let v: u32 = *rng.pick(&[0xFFFF_FFFFu32, 0x7FFF_FF00, 0x0000_0300, 0x8000_0000]); bytes[pos..pos + 4].copy_from_slice(&v.to_le_bytes()); }
+            }
+            what.push(pos);
+        }
+        let desc = json!({"kind": "damaged-dictionary", "positions": what, "case": k, "unit_ffffffff": directed});
+        let loaded = catch(|| load_dictionary(&dir, bytes.clone(), vec![], &cfg));
+        match loaded {
+            Err(p) => {
+                sink.tag("damaged_dictionary:loader_panicked");
+                let id = sink.case_rust_only(desc, true);
+                sink.fail(id, &format!("loading a damaged system dictionary (bytes {:?}) panicked: {}", what, p), "c03_damaged_dictionary");
+                panicked += 1;
+            }
+            Ok(Err(_)) => { sink.tag("damaged_dictionary:rejected"); sink.case_rust_only(desc, true); rejected += 1; }
+            Ok(Ok(dict)) => {
+                let mut bad: Option<String> = None;
+                let mut tok = StatefulTokenizer::new(&dict, Mode::C);
+                for t in texts {
+                    if let Err(p) = analyse(&dict, &mut tok, Mode::A, t) {
+                        bad = Some(format!("text {:?}: {}", t, p));
+                        break;
+                    }
+                }
+                let id = sink.case_rust_only(desc, true);
+                match bad {
+                    None => { sink.tag("damaged_dictionary:loaded_and_analysed"); ok += 1; }
+                    Some(b) => {
+                        sink.tag("damaged_dictionary:loaded_then_panicked");
+                        sink.fail(id, &format!("a damaged system dictionary (bytes {:?} of system.dic.test) LOADED and analysis then panicked: {}", what, b), "c03_damaged_dictionary");
+                        panicked += 1;
+                    }
+                }
+            }
+        }
+    }
+    eprintln!("damaged dictionaries: {} rejected, {} loaded and analysed, {} panicked", rejected, ok, panicked);
+    let _ = std::fs::remove_dir_all(&dir);
 }
